@@ -38,6 +38,8 @@ type Transcript struct {
 	Data  string `json:"data"` // base64 of the remote's bytes
 	Kind  string `json:"kind"` // "plan" or "mutant"
 	Layer string `json:"layer,omitempty"`
+	// NoCallbackAux: the station under test has an auxiliary address and no secure-login callback registered
+	NoCallbackAux bool `json:"nocallbackaux,omitempty"`
 }
 
 type ctxGen struct {
@@ -228,6 +230,8 @@ func (g *ctxGen) token(tok string) {
 		g.line("*** MTD Stats Total connects = 2580 Total messages = 3900")
 	case "Pq":
 		g.line(";PQ: 12345678")
+	case "PmOK":
+		g.line(";PM: LA1AAA ABCDEF123456 423 LA2BBB A pending message")
 	case "Prompt":
 		g.line("LA2BBB BBS>")
 	case "FirstCmd":
@@ -599,7 +603,11 @@ func runTranscript(t Transcript) outcomeT {
 	sess := fbb.NewSession(calls["A"], calls["B"], "JO29PJ", lib)
 	sess.IsMaster(t.Role == "master")
 	sess.SetLogger(discard)
-	sess.SetSecureLoginHandleFunc(func(fbb.Address) (string, error) { return "secret", nil })
+	if t.NoCallbackAux {
+		sess.AddAuxiliaryAddress(fbb.AddressFromString("LA9AUX"))
+	} else {
+		sess.SetSecureLoginHandleFunc(func(fbb.Address) (string, error) { return "secret", nil })
+	}
 	conn := l.End("A")
 	remote := l.End("B")
 	// the remote: everything at once, then EOF once consumed; the station's own output is discarded
@@ -753,6 +761,26 @@ func MainC03(args []string) int {
 	for r := 0; r < 8; r++ { // the eight declared negative compressed sizes, each followed by a transfer
 		ts = append(ts, Concretise(Plan{Role: "slave", Path: []string{"Sid", "Prompt", "PropNegCsize", "EndBlock", "Frame", "FF", "EOF"}}, len(ts)+1, rec.Seed()))
 		ts = append(ts, Concretise(Plan{Role: "master", Path: []string{"Sid", "FirstCmd", "PropNegCsize", "EndBlock", "Frame1", "FF", "EOF"}}, len(ts)+1, rec.Seed()))
+	}
+	// more proposals in a block than the protocol allows (six, seven, twelve), with a valid F> line
+	for _, n := range []int{6, 7, 12} {
+		for _, role := range [][2]string{{"slave", "Prompt"}, {"master", "FirstCmd"}} {
+			path := []string{"Sid", role[1]}
+			for i := 0; i < n; i++ {
+				path = append(path, "Prop")
+			}
+			ts = append(ts, Concretise(Plan{Role: role[0], Path: append(path, "EndBlock", "FF", "EOF")}, len(ts)+1, rec.Seed()))
+		}
+	}
+	// a well-formed ;PM: line in a later turn, after a block has been answered (and before one)
+	ts = append(ts, Concretise(Plan{Role: "slave", Path: []string{"Sid", "Prompt", "Prop", "EndBlock", "Frame", "PmOK", "Prop", "EndBlock", "Frame", "PmOK", "FF", "EOF"}}, len(ts)+1, rec.Seed()))
+	ts = append(ts, Concretise(Plan{Role: "master", Path: []string{"Sid", "FirstCmd", "PmOK", "Prop", "EndBlock", "Frame", "PmOK", "FF", "EOF"}}, len(ts)+1, rec.Seed()))
+	// a secure-login challenge for a station that has an auxiliary address and no callback
+	for _, path := range [][]string{{"Sid", "Pq", "Prompt", "FF", "EOF"}, {"Pq", "Sid", "Prompt", "FF", "EOF"}, {"Sid", "Pq", "Prompt", "Prop", "EndBlock", "Frame", "FF", "EOF"}} {
+		tr := Concretise(Plan{Role: "slave", Path: path}, len(ts)+1, rec.Seed())
+		tr.NoCallbackAux = true
+		tr.Desc += " (auxiliary address, no callback)"
+		ts = append(ts, tr)
 	}
 	nplan := len(ts)
 	ts = append(ts, mutantTranscripts(rng, *mutants, len(ts))...)
